@@ -27,8 +27,7 @@
       21  descendants' rows FAILED/CANCELLED           <->  C02_marked, C02_marked_in_poll
       22  dead node's own row FAILED/CANCELLED/TIMEDOUT<->  C02_stays (st_fc), C02_marked_in_poll
       23  a FAILED/CANCELLED row has a cause            <->  C02_exact_poll, C02_exact
-      24  the rest runs                                 <->  not proved here (C02_rest_runs needs
-                                                            C05's liveness; see below). *)
+      24  the rest runs                                 <->  C02_rest_runs (state level). *)
 From MWF Require Import Base.Util Exec.ExecBase Exec.ExecGen Exec.ExecRun Exec.ExecTrace Exec.ExecGraph
      Exec.ExecPoll Exec.ExecPoll2 Exec.ExecPoll3 Exec.ExecPoll4 Exec.ExecHist Exec.ExecC02 Exec.ExecC0206Ex.
 
@@ -114,11 +113,26 @@ Theorem C02_invariant : forall c g ps, wf_graph g = true -> valid_pins c g (init
 Proof. exact hist_is_poll. Qed.
 Print Assumptions C02_invariant.
 
-(** C02_rest_runs (every step none of whose ancestors ended unsuccessfully is run to completion
-    at normal termination) is a corollary of C05's [ran_all_enabled] and liveness and is NOT proved
-    here; monitor code 24 checks it at run time on every implementation and model trace.
-    Monitor family 2 itself is not proved silent on the model trace here (it needs the ledger
-    coupling of the dead / succeeded sets, exec-ledger's area); it is checked at run time. *)
+(** The rest runs (state level).  When a poll returns FINISHED or FAILURE, every step is completed
+    with row FINISHED (DRYRUN in a dry run) -- unless it is failed and lies in the sub-tree of a step
+    w that got an unsuccessful report or had a failed submission in one of the polls so far.  So a
+    step none of whose ancestors (nor itself) ended unsuccessfully has run to completion. *)
+Theorem C02_rest_runs : forall c g ps, wf_graph g = true -> valid_pins c g (init g) ps = true ->
+  forall tr1 e tr2 x, 0 < attempts c ->
+  run_trace c g (init g) ps = tr1 ++ e :: tr2 ->
+  e_stat e = SFINISHED \/ e_stat e = SFAILURE -> x < length g ->
+  (In x (completed (e_post e)) /\ st_done (status (getrec (e_post e) x))) \/
+  (In x (failed (e_post e)) /\
+   exists e' w, In e' (tr1 ++ [e]) /\ rown (e_post e') (done_final c (e_pin e')) w /\ reach g w x /\
+                FC (e_post e') w).
+Proof. exact C02_rest_runs_proof. Qed.
+Print Assumptions C02_rest_runs.
+
+(** What is NOT proved here: that such a normal termination is eventually reached (C05's liveness,
+    exec-live), and that a completed step had an own ESubmit and a FINISHED report (the ledger
+    coupling of C01/C04, exec-ledger).  Monitor family 2 itself (codes 2, 21-24, which read the
+    ledger's dead / succeeded sets) is not proved silent on the model trace here; it is evaluated at
+    run time on the implementation's and on the model's trace of every correspondence case. *)
 
 (** Non-vacuity.  Steps 0 -> 1 and an independent step 2: the hypotheses hold; poll 2 delivers
     FAILED to step 0, after it 0 and 1 are failed with rows FAILED while 2 keeps running; poll 3
